@@ -128,3 +128,11 @@ func VerifErrClass(err error) string {
 // the harness can make an AddChunk overlap with applyChunks' rejection critical section.
 func (s *syncer) VerifRLock()   { s.mtx.RLock() }
 func (s *syncer) VerifRUnlock() { s.mtx.RUnlock() }
+
+// VerifSetSyncer attaches (or, with nil, detaches) a syncer to the reactor, as Reactor.Sync does
+// for the duration of a state sync.
+func (r *Reactor) VerifSetSyncer(s *syncer) {
+	r.mtx.Lock()
+	r.syncer = s
+	r.mtx.Unlock()
+}
